@@ -271,6 +271,49 @@ def t_start_at_weak():
     return Target('start_at[weak contract]', run, [CORE + 'start_at', CORE + 'init'])
 
 
+def t_trans_weak():
+    """The real trans_ body when states on the way into the target may give no status (None) to the super search:
+    it terminates, raises HsmTopologyException as soon as such a state is consulted -- before any exit or entry that the
+    monitor would reject -- and otherwise meets the strict contract.  The active configuration is free of such
+    states (start_at and the drill-down in dispatch refuse to enter one: repeat-parent detection)."""
+    def run(it):
+        c, g = it.c, it.c.ghost
+        self = make_chart(it, 'HsmEventProcessor', with_queues=False)
+        S, T = c.fresh('S', Ref), c.fresh('T', Ref)
+        tp = B.new_list(it, [SRef(T, 'state'), None, SRef(S, 'state')], 'state')
+        c.hset(tp, '$items', z3.Store(B.seq_items(it, tp), 1, c.fresh('slot1', Ref)))
+        H.mon_init(c, S, T, H.SEARCH)
+        g['g_phase'] = c.fresh('phase0', z3.IntSort())
+        g['g_n_ex'] = c.fresh('n_ex0', z3.IntSort())
+        g['g_S'], g['g_T'] = S, T
+        g['g_bad'] = z3.BoolVal(False)
+        c.pyghost['S'], c.pyghost['T'], c.pyghost['n_ex0'] = S, T, g['g_n_ex']
+        for nm, f in H.trans_pre(it, self, tp, 2):
+            c.assume(f)
+        a = z3.Const('a!act', Ref)
+        c.assume(z3.ForAll([a], z3.Implies(z3.And(is_state(a), encloses(a, S)), z3.Not(H.faulty(a))),
+                           patterns=[H.faulty(a)]))
+        # the cursor is wherever the exits in dispatch left it (a state that gives no status does not move it)
+        c.hset(H.temp_of(it, self), 'fun', c.fresh('tf0', Ref))
+        mods = [(tp, '$items'), (tp, '$len'), (H.temp_of(it, self), 'fun')]
+        out = framed(it, 'trans_[faulty]:frame', mods, lambda: run_body(it, method(it, self, 'trans_'), [tp, 2]))
+        if out.raised is not None:
+            c.prove('trans_[faulty]:post/fails-with-HsmTopologyException', out.raised == 'HsmTopologyException',
+                    tags=('C24',))
+            c.prove('trans_[faulty]:post/fails-only-after-a-state-gave-no-status', g['g_bad'], tags=('C24',))
+            c.prove('trans_[faulty]:post/nothing-entered-before-the-failure',
+                    z3.And(g['g_n_en'] == 0, g['g_n_in'] == 0), tags=('C24',))
+            c.cover('trans_[faulty]:cover/raises')
+            return
+        c.prove('trans_[faulty]:post/returns-only-if-every-state-answered-the-super-search', z3.Not(g['g_bad']),
+                tags=('C24',))
+        ip = c.to_int(out.value)
+        for nm, f in H.trans_post(it, self, tp, S, T, c.pyghost['n_ex0'], ip):
+            c.prove('trans_[faulty]:post/%s' % nm, f, tags=('C24',))
+        c.cover('trans_[faulty]:cover/post-state')
+    return Target('trans_[weak contract]', run, [CORE + 'trans_', CORE + 'top'])
+
+
 def t_dispatch_weak():
     def run(it):
         c, g = it.c, it.c.ghost
